@@ -510,3 +510,156 @@ def affine(expr, defs=None, depth=4):
         if d and d[1] is None and not isinstance(d[0], ast.Lambda):
             return affine(d[0], defs, depth - 1)
     return {unparse(e): 1}
+
+
+# ------------------------------------------------------------------------ closed forms
+
+class Canon:
+    """Closed form of an expression of one function: local names are replaced by the single definition that reaches the use
+    (flow-sensitive reaching definitions over the CFG), tuple unpacking and constant subscripts of tuple displays are resolved.
+    Names with several reaching definitions, loop / with / except targets, parameters and attributes are left as they are.
+    Two pieces of code that compute a value through differently named or differently split locals have the same closed form."""
+
+    OPAQUE = object()
+
+    def __init__(self, fn, depth=12):
+        self.fn, self.g, self.depth = fn, fn.cfg, depth
+        self.sites = {}     # name -> [(cfg node, value expr | OPAQUE, sel)]
+        for n, st in self.g.stmt.items():
+            if st is None:
+                continue
+            if isinstance(st, ast.Assign):
+                for t in st.targets:
+                    self._bind(t, n, st.value)
+            elif isinstance(st, ast.AnnAssign) and st.value is not None:
+                self._bind(st.target, n, st.value)
+            elif isinstance(st, ast.AugAssign):
+                self._opaque(st.target, n)
+            elif isinstance(st, (ast.For, ast.AsyncFor)):
+                self._opaque(st.target, n)
+            elif isinstance(st, (ast.With, ast.AsyncWith)):
+                for it in st.items:
+                    if it.optional_vars is not None:
+                        self._opaque(it.optional_vars, n)
+            elif isinstance(st, ast.ExceptHandler) and st.name:
+                self.sites.setdefault(st.name, []).append((n, self.OPAQUE, None))
+            for x in ast.walk(st) if isinstance(st, (ast.Expr, ast.Assign, ast.Return, ast.If, ast.While)) else ():
+                if isinstance(x, ast.NamedExpr) and isinstance(x.target, ast.Name):
+                    self.sites.setdefault(x.target.id, []).append((n, self.OPAQUE, None))
+
+    def _bind(self, t, n, value):
+        if isinstance(t, ast.Name):
+            self.sites.setdefault(t.id, []).append((n, value, None))
+        elif isinstance(t, (ast.Tuple, ast.List)):
+            for i, e in enumerate(t.elts):
+                if isinstance(e, ast.Name):
+                    self.sites.setdefault(e.id, []).append((n, value, i))
+                else:
+                    self._opaque(e, n)
+
+    def _opaque(self, t, n):
+        for x in ast.walk(t):
+            if isinstance(x, ast.Name):
+                self.sites.setdefault(x.id, []).append((n, self.OPAQUE, None))
+
+    def reaching(self, name, n):
+        """definitions of `name` that reach CFG node n -> list of sites; includes None if the function entry reaches n undefined"""
+        sites = self.sites.get(name, [])
+        if not sites:
+            return [None]
+        nodes = {s[0] for s in sites}
+        out = []
+        for s in sites:
+            if self.g.reaches_avoiding(s[0], n, avoid=nodes - {s[0]}):
+                out.append(s)
+        if n == 0 or self.g.reaches_avoiding(0, n, avoid=nodes) or (0 in self.g.succ and n in self.g.succ[0] and n not in nodes):
+            out.append(None)
+        return out
+
+    def expr(self, e, at=None, depth=None):
+        """closed form of expression e evaluated at CFG node `at` (default: the statement that contains e)"""
+        import copy
+        if at is None:
+            at = self.g.node_for(e)
+        depth = self.depth if depth is None else depth
+        return self._sub(e, at, depth, frozenset())
+
+    def text(self, e, at=None):
+        return ast.unparse(self.expr(e, at)).replace(' ', '')
+
+    def linked(self, e, at=None):
+        """closed form with _parent links (for rules that look at the context of a sub-expression)"""
+        import copy
+        new = copy.deepcopy(self._strip(self.expr(e, at)))
+        new._parent = None
+        for node in ast.walk(new):
+            for ch in ast.iter_child_nodes(node):
+                ch._parent = node
+        return new
+
+    @staticmethod
+    def _strip(e):
+        """copy without parent links (deepcopy would follow them into the whole module)"""
+        import copy
+        if isinstance(e, list):
+            return [Canon._strip(x) for x in e]
+        if not isinstance(e, ast.AST):
+            return e
+        new = copy.copy(e)
+        if hasattr(new, '_parent'):
+            del new._parent
+        for fld, val in ast.iter_fields(e):
+            setattr(new, fld, Canon._strip(val))
+        return new
+
+    def _sub(self, e, at, depth, bound):
+        import copy
+        if isinstance(e, ast.Name):
+            if not isinstance(e.ctx, ast.Load) or e.id in bound or depth <= 0 or at is None:
+                return e
+            rd = self.reaching(e.id, at)
+            if len(rd) != 1 or rd[0] is None or rd[0][1] is self.OPAQUE:
+                return e
+            dn, v, sel = rd[0]
+            sub = self._sub(v, dn, depth - 1, frozenset())
+            if sel is None:
+                return sub
+            if isinstance(sub, (ast.Tuple, ast.List)) and sel < len(sub.elts) and not any(isinstance(x, ast.Starred) for x in sub.elts):
+                return sub.elts[sel]
+            return ast.Subscript(value=sub, slice=ast.Constant(value=sel), ctx=ast.Load())
+        if isinstance(e, (ast.ListComp, ast.SetComp, ast.GeneratorExp, ast.DictComp)):
+            b = set(bound)
+            for gen in e.generators:
+                b |= {x.id for x in ast.walk(gen.target) if isinstance(x, ast.Name)}
+            b = frozenset(b)
+            new = copy.copy(e)
+            new.generators = []
+            for gen in e.generators:
+                g2 = copy.copy(gen)
+                g2.iter = self._sub(gen.iter, at, depth, b)
+                g2.ifs = [self._sub(i, at, depth, b) for i in gen.ifs]
+                new.generators.append(g2)
+            for fld in ('elt', 'key', 'value'):
+                if hasattr(e, fld):
+                    setattr(new, fld, self._sub(getattr(e, fld), at, depth, b))
+            return new
+        if isinstance(e, ast.Lambda):
+            b = frozenset(set(bound) | {a.arg for a in e.args.args + e.args.kwonlyargs})
+            new = copy.copy(e)
+            new.body = self._sub(e.body, at, depth, b)
+            return new
+        if not isinstance(e, ast.AST):
+            return e
+        new = copy.copy(e)
+        for fld, val in ast.iter_fields(e):
+            if isinstance(val, ast.expr):
+                setattr(new, fld, self._sub(val, at, depth, bound))
+            elif isinstance(val, list):
+                setattr(new, fld, [self._sub(v, at, depth, bound) if isinstance(v, (ast.expr, ast.keyword)) else v for v in val])
+            elif isinstance(val, ast.keyword):
+                setattr(new, fld, self._sub(val, at, depth, bound))
+        if isinstance(new, ast.Subscript) and isinstance(new.value, (ast.Tuple, ast.List)) and isinstance(new.slice, ast.Constant) and \
+                isinstance(new.slice.value, int) and -len(new.value.elts) <= new.slice.value < len(new.value.elts) and \
+                not any(isinstance(x, ast.Starred) for x in new.value.elts):
+            return new.value.elts[new.slice.value]
+        return new
